@@ -55,7 +55,9 @@ func OutDir() string { return os.Getenv("VERIF_OUT") }
 // Scale returns the number of cases this process should run for a part whose whole-run
 // budget is quick (resp. thorough) cases.
 func Scale(quick, thorough int) int {
-	n := quick
+	// the quick budgets in the parts are the per-change minimum; the quick tier runs a multiple
+	// of them (still seconds per property on 8 shards)
+	n := quick * envInt("VERIF_QUICK_X", 5)
 	if Thorough() {
 		n = thorough
 	}
